@@ -13,7 +13,7 @@ RULE = ("seeded gen_coords runs with residue types of 1-4 atoms (+ virtual site;
         "atoms; distinct = distinct event-log digests")
 ASSUMPTIONS = wa.ASSUMPTIONS
 REAL_VS_STUB = wa.REAL_VS_STUB
-PROBES = wa.PROBES + ["centres_supplied"]
+PROBES = wa.PROBES + ["earlier_call_same_topology_paths", "centres_supplied"]
 PROFILE = {"max_atoms": 4, "p_bf": 0.7, "faults": ["orient", "orient", "step", "opt"], "n_restypes": (1, 3),
            "box_modes": ["cubic", "noncubic", "density"]}
 
@@ -31,6 +31,8 @@ def gen_job(verif_seed, tier, index):
         job["tape"]["orient"] = draw_lane(st.tape, 3 * topgen.n_residues(job["spec"]) + 5, 0.7, False, maxval=7)
     if g.random() < 0.25:
         jobgen.add_coordinates(job, g, {"coord_modes": ["meta_full", "meta_prefix", "prefix"]})
+    if job.get("coord_text") is None and not job.get("bld_volumes") and g.random() < 0.12:
+        jobgen.add_pre_variant(job, g, g.choice(["other_geometry", "other_graph"]))
     return job
 
 
